@@ -675,45 +675,6 @@ def run(chk):
 
     violated_helpers = set()
     corr_bad = {}
-    life_bad = sorted((i for i in codes if meta[i]['kind'] == 'life'),
-                      key=lambda i: (0 if meta[i]['spec']['kind'] == 'directed' else 1, len(meta[i]['view']), i))
-    life_corr = {}
-    for idx in life_bad:
-        mt, code = meta[idx], codes[idx]
-        bits, at = code & 1023, (code >> 10) - 1
-        w, oi, row = mt['world'], mt['oi'], mt['row']
-        if at < 0 or at >= len(mt['view']):
-            chk.broken_obligation('life of %s: histories of model and implementation differ in length' %
-                                  c17life.describe_object(w, oi))
-            continue
-        e = mt['view'][at]
-        if bits & 2:
-            replay_ = {'life': mt['spec'], 'object': oi, 'operation': at, 'code': code, 'case': cases[idx]}
-            after = any(x[0] == 'enter' for x in mt['view'][:at])
-            if e[0] == 'helper':
-                _k, st, pos, kw, o = e
-                violated_helpers.add((row['hcls'], st['m']))
-                hm = {'given': st['pos'] + st['kw'], 'values': dict((k, spec_val(v)) for k, v in st['values'].items())}
-                sig_ = classify(row, st['m'], None, hm, o, bits) + ('-after-dispatch' if after else '')
-                what = '%s; reasons: %s' % (c17life.describe_life(w, oi, upto=at),
-                                            ', '.join(n for b, n in REASONS if bits & b))
-            else:
-                sig_ = 'c17-%s-filed-under-other-namespace' % row['hcls']
-                what = c17life.describe_life(w, oi, upto=at)
-            chk.violation(sig_, what, replay_)
-        elif bits & 1:
-            life_corr.setdefault(row['hcls'], []).append((idx, at))
-    for hcls, items in sorted(life_corr.items()):
-        idx, at = items[0]
-        mt = meta[idx]
-        text_ = ('correspondence: Forward/Life.v over the generated description k_%s and the real class disagree '
-                 'on %d lives, first (operation %d): %s' % (
-                     hcls, len(items), at, c17life.describe_life(mt['world'], mt['oi'], upto=at)))
-        chk.broken_obligation(text_)
-        if not any(h == hcls for h, _m in violated_helpers):
-            chk.violation('c17-%s-life-correspondence' % hcls, text_,
-                          {'life': mt['spec'], 'object': mt['oi'], 'operation': at, 'case': cases[idx]},
-                          no_input=True)
     for idx, code in sorted(codes.items()):
         mt = meta[idx]
         if mt['kind'] == 'life':
@@ -742,6 +703,54 @@ def run(chk):
                 'observed': short_obs(mt['obs']), 'code': code, 'case': cases[idx]})
         elif code & 1:
             corr_bad.setdefault((row['hcls'], m), []).append(idx)
+    # lives: report the simplest failing history first - no event dispatched before the failing
+    # operation, then a directed world, then the shortest life
+    def life_key(i):
+        at_ = (codes[i] >> 10) - 1
+        return (len([x for x in meta[i]['view'][:max(at_, 0)] if x[0] == 'enter']),
+                0 if meta[i]['spec']['kind'] == 'directed' else 1, len(meta[i]['view']), i)
+    life_bad = sorted((i for i in codes if meta[i]['kind'] == 'life'), key=life_key)
+    life_corr = {}
+    for idx in life_bad:
+        mt, code = meta[idx], codes[idx]
+        bits, at = code & 1023, (code >> 10) - 1
+        w, oi, row = mt['world'], mt['oi'], mt['row']
+        if at < 0 or at >= len(mt['view']):
+            chk.broken_obligation('life of %s: histories of model and implementation differ in length' %
+                                  c17life.describe_object(w, oi))
+            continue
+        e = mt['view'][at]
+        if bits & 2:
+            replay_ = {'life': mt['spec'], 'object': oi, 'operation': at, 'code': code, 'case': cases[idx]}
+            after = any(x[0] == 'enter' for x in mt['view'][:at])
+            if e[0] == 'helper':
+                _k, st, pos, kw, o = e
+                violated_helpers.add((row['hcls'], st['m']))
+                hm = {'given': st['pos'] + st['kw'], 'values': dict((k, spec_val(v)) for k, v in st['values'].items())}
+                sig_ = classify(row, st['m'], None, hm, o, bits)
+                # the suffix marks failures that NEED a dispatched event: not used when the same class of
+                # failure was already seen on a call that no event preceded
+                if after and not any(v[0] == sig_ for v in chk.violations) and sig_ not in chk.known_hits:
+                    sig_ += '-after-dispatch'
+                what = '%s; reasons: %s' % (c17life.describe_life(w, oi, upto=at),
+                                            ', '.join(n for b, n in REASONS if bits & b))
+            else:
+                sig_ = 'c17-%s-filed-under-other-namespace' % row['hcls']
+                what = c17life.describe_life(w, oi, upto=at)
+            chk.violation(sig_, what, replay_)
+        elif bits & 1:
+            life_corr.setdefault(row['hcls'], []).append((idx, at))
+    for hcls, items in sorted(life_corr.items()):
+        idx, at = items[0]
+        mt = meta[idx]
+        text_ = ('correspondence: Forward/Life.v over the generated description k_%s and the real class disagree '
+                 'on %d lives, first (operation %d): %s' % (
+                     hcls, len(items), at, c17life.describe_life(mt['world'], mt['oi'], upto=at)))
+        chk.broken_obligation(text_)
+        if not any(h == hcls for h, _m in violated_helpers):
+            chk.violation('c17-%s-life-correspondence' % hcls, text_,
+                          {'life': mt['spec'], 'object': mt['oi'], 'operation': at, 'case': cases[idx]},
+                          no_input=True)
     for (hcls, m), idxs in sorted(corr_bad.items()):
         mt = meta[idxs[0]]
         kw_items = [(n, mt['values'][n]) for n in mt['kw_order']]
